@@ -50,9 +50,15 @@ def gen_program(rng, nclasses=None):
                 continue
             used.add((nm, TYPE_FOR_SFX[sfx]))
             (c.sfields if rng.random() < 0.5 else c.ifields).append((nm, TYPE_FOR_SFX[sfx]))
-        for j in range(rng.randrange(1, 4)):
+        holder = i > 0 and rng.random() < 0.12      # a constant-holder class: fields only, no method at all
+        if holder and not (c.sfields or c.ifields):
+            c.sfields.append(("held", "I"))
+        for j in range(0 if holder else rng.randrange(1, 4)):
             static = rng.random() < 0.5
             c.methods.append(MethodSpec(c.name, rng.choice(["m", "run", "shared"]) + str(j), rng.choice(["V", "I"]), rng.choice([(), ("I",), ("J", "I")]), static))
+        if holder:
+            classes.append(c)
+            continue
         if rng.random() < 0.3:
             # a method whose name is one of the string constants the code loads (reflection-style: getMethod("hello"))
             c.methods.append(MethodSpec(c.name, rng.choice(["hello", "shared", "x", "shared2"]), "V", ("J", "J", "J"), True))
